@@ -87,10 +87,12 @@ XProgs == {[x |-> "unknown-target", line |-> l, im |-> i] : l \in {"map B Zz", "
             \*       (path-slice) `map Meta.Tags Tags` through a pointer: the slice arrives, and nil Meta gives nil Tags without a panic
             \cup {[x |-> "misc", sub |-> sb] : sb \in {"nested", "two-automap", "path-slice"}}
             \cup {[x |-> "reuse", setting |-> st, second |-> sc] : st \in {"none", "map", "ignore", "autoMap"}, sc \in {"none", "slice", "value"}}
+            \* reuse-ptrval: the same with Conv(ptr S) T, which needs useZeroValueOnPointerInconsistency -- given on that method only
+            \cup {[x |-> "reuse-ptrval", setting |-> st, second |-> sc] : st \in {"none", "map", "ignore"}, sc \in {"none", "slice", "value"}}
 XExpect(q) ==
   CASE q.x \in {"unknown-target", "nonstruct"} -> [gen |-> "fail", val |-> 0]
     [] q.x = "misc" -> [gen |-> "ok", val |-> 0, vals |-> CASE q.sub = "nested" -> <<1, 3>> [] q.sub = "two-automap" -> <<4, 5>> [] OTHER -> <<7, 99>>]
-    [] q.x = "reuse" -> [gen |-> IF q.setting # "none" /\ q.second # "none" THEN "fail" ELSE "ok", val |-> 0]
+    [] q.x \in {"reuse", "reuse-ptrval"} -> [gen |-> IF q.setting # "none" /\ q.second # "none" THEN "fail" ELSE "ok", val |-> 0]
     [] q.x = "method" ->
          LET exact == (IF q.field = "Name" THEN {"f"} ELSE {}) \cup (IF q.meth = "Name" THEN {"m"} ELSE {})
              ci == IF q.mic THEN (IF q.field = "NAME" THEN {"f"} ELSE {}) \cup (IF q.meth = "NaMe" THEN {"m"} ELSE {}) ELSE {}
